@@ -57,13 +57,20 @@ package resp
 //@     invariant sameArray(bNext, buf) && off(bNext) >= off(buf) && off(bNext) + len(bNext) == off(buf) + len(buf)
 
 //@ ghost var rphChunked bool
+// rclOK/rclVal: outcome and value of the last Content-Length parse - the only non-sentinel length ever installed.
+//@ ghost var rclOK bool
+//@ ghost var rclVal int
 //@ func parseHeaders(h, buf) n, err
 //@   props C03, C11
 //@   requires h != nil
-//@   modifies *, rphChunked
+//@   modifies *, rphChunked, rclOK, rclVal
 //@   ghostset-at-entry rphChunked = false
 //@   assert @C11 before InitContentLengthWithValue!: arg1 == -1 || !rphChunked
 //@   ghostset after InitContentLengthWithValue!: rphChunked = rphChunked || arg1 == -1
+//@   ghostset-at-entry rclOK = false
+//@   ghostset after ParseContentLength: rclOK = (result1 == nil)
+//@   ghostset after ParseContentLength: rclVal = result0
+//@   assert @C11 before InitContentLengthWithValue!: arg1 == -2 || arg1 == -1 || (rclOK && arg1 == rclVal)
 //@   ensures h.disableNormalizing == old(h.disableNormalizing)
 //@   ghostset-at-entry parseArr = arr(buf)
 //@   ensures err == nil ==> 0 <= n && n <= len(buf)
